@@ -674,7 +674,7 @@ where
                     symbol = symbol - step;
                 } else {
                     // We're still in the downward search phase with exponentially increasing step size.
-                    if step << 1 != Symbol::zero() {
+                    if step << 1 > Symbol::zero() {
                         step = step << 1;
                     }
 
@@ -756,7 +756,7 @@ where
                     symbol = symbol + step;
                 } else {
                     // We're still in the upward search phase with exponentially increasing step size.
-                    if step << 1 != Symbol::zero() {
+                    if step << 1 > Symbol::zero() {
                         step = step << 1;
                     }
 
